@@ -18,6 +18,16 @@ Section Gen.
     destruct (ltb OP (ofZ OP 180) (absf OP (sub OP lon prev))); reflexivity.
   Qed.
 
+  (* the regenerated `covers no poles` branch, for one point, is the model's window test in class 2 with the
+     snapshot's two longitude modes (0: plain interval, 1: date-line union), selected by lons_side2.min() > lons_side4.max() *)
+  Lemma gen_no_pole_mask_char (pymod : T -> T -> T) lon lat lo hi a b s2min s4max :
+    gen_no_pole_mask OP lon lat lo hi a b s2min s4max
+    = keep OP pymod (mk_win 2 lo hi (if ltb OP s4max s2min then 0 else 1) a b) (lon, lat).
+  Proof.
+    unfold gen_no_pole_mask, keep, in_lat, in_lon, cz. cbn [cls lonmode latlo lathi wa wb fst snd].
+    destruct (ltb OP s4max s2min); reflexivity.
+  Qed.
+
   (* the loop of the model, with the generated body substituted for its step, computes the same angle sum *)
   Fixpoint gen_side_sum (side : list T) (prev : option T) (s : T) : T :=
     match side with
